@@ -1346,9 +1346,17 @@ class Authenticated(BaseClientHandler):
                 # Do an EXPUNGE if there are any messages marked 'Delete'
                 #
                 if self.mbox.sequences.get("Deleted", []):
+                    # NOTE: `msg_set_as_set` holds the message sequence numbers
+                    #       of the UIDs given that exist in the mailbox,
+                    #       `expunge()` wants UIDs. A UID EXPUNGE naming only
+                    #       UIDs that do not exist expunges nothing.
+                    #
                     uid_msg_set = (
-                        list(cmd.msg_set_as_set)
-                        if cmd.uid_command and cmd.msg_set_as_set
+                        [
+                            self.mbox.uids[n - 1]
+                            for n in sorted(cmd.msg_set_as_set or [])
+                        ]
+                        if cmd.uid_command
                         else None
                     )
                     await self.mbox.expunge(uid_msg_set=uid_msg_set)
